@@ -755,6 +755,8 @@ def method(ex, p, s, name, args, kwargs, node):
         yield p, (r if isinstance(r, Raised) else VBool(r))
     elif name == 'isspace':
         yield p, VBool(isspace(ex, p, s))
+    elif name in ('encode', 'decode') and (len(args) > 1 or 'errors' in kwargs):
+        raise EngineError(f'str.{name} with an error handler is not modelled')
     elif name == 'encode':
         if s.kind != 'str':
             yield p, Raised('AttributeError', node=node)
